@@ -11,7 +11,9 @@ identity per agent; `old + next` for every object reconstructed by a copy).
   set <a> <c>                           a.cell = c      → ok | err NoAgent | err NoCell | err Foreign | err Full
   unset <a> | remove <a>                a.cell = None | a.remove()                  → ok | err NoAgent
   copy <s> deepcopy|pickle              the copy is space <s + next>                → ok <s'> fresh | err NoSpace
-  look <s>                              c:idx:cap:listed agents:connection targets … | a:unique_id:cell … | empty cells …
+  look <s>                              c:idx:cap:listed agents:connection targets … | a:unique_id:cell … | empty cells … | g
+                                        g: the generator objects used by the space, its model and its cells — in the model the
+                                        generator is part of the record of the pair space/model, so this is always <s>
 -/
 open Mesa.CopyOcc
 
@@ -34,10 +36,10 @@ def showCap : Option Nat → String
   | some k => toString k
   | none => "-"
 
-def showLook (v : List (Nat × Nat × Option Nat × List Nat × List Nat) × List (Nat × Nat × Option Nat)) (e : List Nat) : String :=
+def showLook (s : Nat) (v : List (Nat × Nat × Option Nat × List Nat × List Nat) × List (Nat × Nat × Option Nat)) (e : List Nat) : String :=
   "ok " ++ " ".intercalate (v.1.map fun (c, i, cap, ags, conn) => s!"{c}:{i}:{showCap cap}:{dots ags}:{dots conn}")
     ++ " | " ++ " ".intercalate (v.2.map fun (a, u, c) => s!"{a}:{u}:{showCap c}")
-    ++ " | " ++ " ".intercalate (e.map toString)
+    ++ " | " ++ " ".intercalate (e.map toString) ++ s!" | {s}"
 
 def showRes : Res → String
   | .ok => "ok"
@@ -83,7 +85,7 @@ def opLine (w : World) (ws : List String) : World × String :=
     match s.toNat? with
     | some s =>
       (match view w s, empties w s with
-       | some v, some e => (w, showLook v e)
+       | some v, some e => (w, showLook s v e)
        | _, _ => (w, "err NoSpace"))
     | none => (w, "bad-op")
   | _ => (w, "bad-op")
